@@ -4,6 +4,16 @@ import json, os
 HERE = os.path.dirname(os.path.dirname(os.path.abspath(__file__)))
 ALL = ["C%02d" % i for i in range(1, 21)]
 CHECKS = {
+ "C04": dict(
+   technique="TLA+ spec FortranScopes.tla (block grammar as guarded actions; well-nestedness invariants model-checked); every complete program TLC enumerates/simulates is rendered with seeded spacing and its documentSymbol / workspace/symbol answers are compared with the spec's closed-scope set",
+   text="All complete valid programs of <=6 (quick) / <=8 (thorough) statements over units, procedures, CONTAINS nesting, types with components/bindings, interfaces and six block constructs, plus simulated programs of up to 30 statements: each required entity exactly once with admissible kind, container and first/last line; workspace/symbol equals the substring-filtered set of units and module members, sorted.",
+   note="Trusted: TLC, renderer (validated with gfortran -fsyntax-only on a sample), admissible SymbolKind sets. Don't-care: entries the property does not mention.",
+   design="4/C04"),
+ "C07": dict(
+   technique="FortranScopes.tla with seeded-defect actions: TLC enumerates valid programs and programs with exactly one defect (the spec records the expected diagnostic class, severity and line); rendered programs are opened in a live server and publishDiagnostics is compared with expDiag",
+   text="Valid programs must publish no severity-1 diagnostic; for each of 16 modelled defect classes seeded at every applicable position within the bound the class/severity/line must be published and no other error class may appear.",
+   note="Trusted: TLC, renderer, keyword-set classification of messages. Not modelled: unimplemented deferred binding.",
+   design="4/C07"),
  "C08": dict(
    technique="TLA+ spec Preproc.tla: TLC checks the implementation-shaped two-stack conditional machine against reference C-preprocessor semantics in every reachable state (named deviation must yield a counterexample); TLC-enumerated and simulated directive files replayed into preprocess_file and a live server, compared with the spec state; clang -E validates the spec",
    text="Exhaustive files of <=3 lines over the full directive alphabet, exhaustive conditional skeletons of 6 (quick) / 7 lines, and simulated files of up to 14 lines with nested expressions and hostile macro bodies: liveness of every code line, final macro table, expanded text of macro uses (incl. one level of macro-in-macro rescan) and indexed declarations are compared with the spec.",
